@@ -395,7 +395,7 @@ register("C13", streams=[Q("parent", apis=["find_matches"], src=None, share=2), 
          extra=[families.MutateFamily("mset", 300, 15000, "set_match from a Match whose target path climbs above the source (outcome, returned location, object graph)")],
          rule="paths with parent steps in any position, interleaved with descents, filters and recursion, from a document or a Match; locations incl. the '<-name' trail compared")
 register("C17", streams=[Q("all", apis=["find_matches", "find", "get_match"], src=None)],
-         observables=["results_exc", "leaf_events", "stamps", "tie:trace"], oracles=[oracles.untraced_oracle, oracles.long_scan_oracle],
+         observables=["results_exc", "leaf_events", "stamps", "tie:trace"], oracles=[oracles.untraced_oracle, oracles.long_scan_oracle, oracles.event_chain_oracle],
          rule="full trace event stream (last_match, vertex index, next_match, predicate_match) compared with the machine model; unstamped events compared with the specification stream; traced vs untraced runs compared on the python side")
 register("C20", generated=["Budget"], streams=[Q("all", apis=["find_matches"], src=None, nexts="drain")],
          observables=["attempts_bound", "results_exc", "tie:attempts"], oracles=[oracles.work_bound_oracle, oracles.cyclic_oracle, oracles.deep_oracle],
@@ -425,7 +425,7 @@ register("C06", streams=[Q("all", apis=ALL_APIS, src=None, share=1)], n_quick=15
          observables=["results_exc"], oracles=[oracles.snapshot_oracle, oracles.reuse_oracle], generated=["Stores"],
          rule="read-only calls (find / find_matches / get_match / get, traced and untraced, from a document or a Match, any has-family predicates) repeated 2-5 times on the same document and the same path object: deep snapshot (container identities, key order, list contents) before = after every call, the path renders like a never-evaluated twin, later evaluations select what the first did; plus the store table regenerated from the source")
 register("C16", streams=[Q("all", apis=ALL_APIS, src=None, share=1)], n_quick=1500, n_thorough=60000,
-         observables=["results_exc"], oracles=[oracles.documented_oracle, oracles.slice_mutation_oracle, oracles.deep_oracle],
+         observables=["results_exc"], oracles=[oracles.documented_oracle, oracles.slice_mutation_oracle, oracles.deep_oracle, oracles.resume_after_loop_oracle],
          extra=[families.MutateFamily("set", 400, 15000, "error classes of set_ / set_match"),
                 families.MutateFamily("pop", 400, 15000, "error classes of pop / pop_match"),
                 families.BuilderFamily("dag", 400, 15000, "PathSyntaxError at construction for unsupported indices")],
